@@ -4,7 +4,7 @@
    clause for archives without roots. *)
 From GoCar Require Import Bytes Varint Cid Header Frame V2Header Scan Index Store Wf.
 From GoCarProofs Require Import BytesFacts VarintFacts CidFacts HeaderFacts ScanFacts
-     FinalBytes FinalOrder FinalIndex FinalStore FinalWf FinalAccept FinalMain.
+     FinalBytes FinalOrder FinalIndex FinalStore FinalWf FinalAccept FinalWide FinalMain.
 
 Definition ex_dig1 : bytes :=
   [x8f; x43; x43; x46; x64; x8f; x6b; x96; xdf; x89; xdd; xa9; x01; xc5; x17; x6b; x10; xa6; xd8; x39; x61;
@@ -148,27 +148,27 @@ Definition ex_file0 : bytes :=
 
 Theorem verify_no_roots_refuted :
   exists (k : skind) (o : wopts) (nilroots : bool) (roots : list bytes) (h : list batch) s outs,
-    session k o nilroots roots h = Ok (s, outs, ONil) /\
-    51 + w_dpad o + w_ipad o < two64 /\ w_ipad o < two63 /\ w_maxcid o + 8 <= max_width /\
+    session k (apply_wopts o) nilroots roots h = Ok (s, outs, ONil) /\
+    51 + w_dpad o + w_ipad o < two64 /\ w_ipad o < two63 /\
     Forall (Forall (fun b : block => blen (fst b) + blen (snd b) < 2 ^ 56)) h /\
     blen (ws_file s) < two63 /\
     dec_header_canon pragma_body = Some ([], 2) /\
     dec_header_canon (enc_header (roots_opt nilroots roots) 1) = Some (roots, 1) /\
     Forall (Forall (fun b : block => blen (fst b) + blen (snd b) <= o_maxs default_ropts)) h /\
     Forall (Forall (hash_good ex_hok)) h /\
-    incl roots (map fst (spec_stored k o (roots_opt nilroots roots) h)) /\
-    wf_car o (ws_file s) = true /\
+    incl roots (map fst (spec_stored k (apply_wopts o) (roots_opt nilroots roots) h)) /\
+    wf_car (apply_wopts o) (ws_file s) = true /\
     inspect_check ex_hok dec_header_canon default_ropts true (ws_file s) = Ok tt /\
     verify_check ex_hok dec_header_canon (ws_file s) = Err EOther.
 Proof.
   assert (Hs : exists s outs, session KBlockstore ex_o0 false [] [[(ex_c1, ex_d1)]] = Ok (s, outs, ONil) /\ ws_file s = ex_file0).
   { vm_compute. eexists. eexists. split; reflexivity. }
   destruct Hs as (s & outs & Hs & Hf).
-  exists KBlockstore, ex_o0, false, [], [[(ex_c1, ex_d1)]], s, outs. rewrite Hf.
+  exists KBlockstore, ex_o0, false, [], [[(ex_c1, ex_d1)]], s, outs. change (apply_wopts ex_o0) with ex_o0. rewrite Hf.
   assert (Hsz : forall c d : bytes, blen c + blen d <= 1000 -> blen c + blen d < 2 ^ 56)
     by (intros; change (2 ^ 56) with 72057594037927936; lia).
   split; [exact Hs|].
-  split; [num|]. split; [num|]. split; [num|].
+  split; [num|]. split; [num|].
   split. { each. cbn [fst snd]. apply Hsz; num. }
   split; [num|]. split; [num|]. split; [num|].
   split. { each. num. }
